@@ -65,7 +65,9 @@ func (e *enumValidator) Err() string {
 
 	validator.GeneratorMemory[key] = true
 
-	enumList := strings.Join(e.enumValues, ", ")
+	// The list ends up inside a Go string literal: escape quotes and backslashes in the items.
+	enumList := fmt.Sprintf("%q", strings.Join(e.enumValues, ", "))
+	enumList = enumList[1 : len(enumList)-1]
 
 	const deprecationNoticeTemplate = `
 		// Deprecated: Use [@ERRVARIABLE]
